@@ -87,6 +87,7 @@ fn alphabet(n: usize) -> Vec<Dev> {
         true
     }));
     d.extend(crate::devs::rich_generic_devs(true));
+    d.extend(crate::devs::syntax_devs(false, false, true, false).into_iter().filter(|d| d.label.contains("doc(hidden)")));
             d.extend(crate::devs::context_devs());
     d
 }
